@@ -232,11 +232,13 @@ Denote(idx, q) ==
                Scale(Unit, q.b4))
 
 \* queries whose score the documentation fixes (C09): everything built from
-\* term / every / const leaves with and/or/dismax/andnot/andmaybe/require;
-\* a Not, phrase or multi-term clause in a *scoring* position is not asserted.
+\* term / every / const / multi-term (constant: the boost) leaves with and/or/dismax/andnot/andmaybe/require;
+\* a Not, phrase or fuzzy clause in a *scoring* position is not asserted.
 RECURSIVE Scored(_)
 Scored(q) ==
   CASE q.op \in {"term", "every", "const", "null"} -> TRUE
+    \* multi-term queries score a constant, the boost (constantscore=True is their default)
+    [] q.op \in {"prefix", "wildcard", "termrange", "numrange"} -> TRUE
     [] q.op \in {"and", "or", "dismax"} -> \A i \in DOMAIN q.kids : Scored(q.kids[i])
     [] q.op \in {"andnot", "require"} -> Scored(q.a)
     [] q.op = "andmaybe" -> Scored(q.a) /\ Scored(q.b)
